@@ -131,6 +131,11 @@ type Step struct {
 	Stores []Store
 	Fail   bool  // the row callback returns an error after issuing its stores (the body swallows it)
 	Access uint8 // how the row is addressed / written (see sut.go)
+	// HasPeek: the last thing the row callback does is a nested read-only QueryAt(Peek) on the same
+	// transaction (e.g. "insert a child and look at its parent"); it moves the transaction cursor
+	// and has no effect in the model. Sequential histories only (nested read latches).
+	HasPeek bool
+	Peek    uint32
 }
 
 // StepResult is what the real collection answered for a step.
@@ -174,6 +179,9 @@ func (s *Schema) renderStep(st Step) string {
 	}
 	if len(st.Stores) > 0 {
 		fmt.Fprintf(&b, "{%s}", s.renderStores(st.Stores))
+	}
+	if st.HasPeek {
+		fmt.Fprintf(&b, "+peek@%d", st.Peek)
 	}
 	if st.Fail {
 		b.WriteString("!fail")
